@@ -653,7 +653,7 @@ class Forest:
 _DEFAULTS = dict(min_units=1, max_units=4, max_depth=4, max_dies=40, versions=(2, 3, 4, 5),
                  partial_units=True, refs=True, share_abbrev=0.5, sibling=0.35, strp=0.5,
                  lone_null=0.15, odd_codes=0.3, cross_unit_chains=False, max_chain=4,
-                 llvm_safe=True, v4_block_locations=False,
+                 llvm_safe=True, v4_block_locations=False, extras=0.3, refused=0.0,
                  const_forms=("data1", "data2", "data4", "data8", "sdata", "udata"))
 
 _WORDS = ["foo", "bar", "baz", "qux", "main", "x", "y", "i", "T", "value", "next", "node",
@@ -986,6 +986,57 @@ class ForestGen:
             if self._chance(0.7):
                 self._add_pc(d)
 
+    _EXTRAS = {
+        "subprogram": [("inline", (0, 1, 2, 3, 9)), ("calling_convention", (1, 2, 3, 0x40, 0x41, 7)),
+                       ("accessibility", (1, 2, 3)), ("virtuality", (0, 1, 2)), ("decl_column", None),
+                       ("visibility", (1, 2, 3))],
+        "variable": [("accessibility", (1, 2, 3)), ("visibility", (1, 2, 3, 0)), ("decl_column", None),
+                     ("endianity", (0, 1, 2, 0x40)), ("start_scope", None)],
+        "member": [("accessibility", (1, 2, 3)), ("bit_size", None), ("data_bit_offset", None),
+                   ("decl_column", None), ("byte_size", None)],
+        "base_type": [("endianity", (0, 1, 2)), ("bit_size", None), ("binary_scale", "signed"),
+                      ("decimal_scale", "signed"), ("decimal_sign", (1, 2, 3, 4, 5)), ("digit_count", None),
+                      ("alignment", None)],
+        "structure_type": [("calling_convention", (4, 5)), ("accessibility", (1, 2, 3)), ("alignment", None),
+                           ("bit_stride", "signed"), ("byte_stride", "signed")],
+        "enumeration_type": [("bit_stride", "signed"), ("byte_stride", "signed"), ("accessibility", (1, 2, 3))],
+        "pointer_type": [("address_class", (0, 1, 2, 3, 4, 5)), ("alignment", None)],
+        "typedef": [("accessibility", (1, 2, 3)), ("decl_column", None)],
+        "formal_parameter": [("decl_column", None), ("endianity", (0, 1, 2))],
+        "namespace": [("decl_column", None)],
+        "lexical_block": [("entry_pc", None)],
+        "compile_unit": [("identifier_case", (0, 1, 2, 3))],
+        "partial_unit": [("identifier_case", (0, 1, 2, 3))],
+    }
+
+    def _add_extras(self, d, tn):
+        """A few more integer-valued attributes: enumerated ones (named constants), counts, signed scales,
+        vendor attributes and (option `refused`) attributes whose signedness dwgrep declines to guess."""
+        r = self.rng
+        for name, vals in self._EXTRAS.get(tn, ()):
+            if not self._chance(self.opts["extras"] * 0.5) or d.has(name):
+                continue
+            if vals == "signed":
+                form = r.choice(["data1", "data2", "sdata", "data1"])
+                if form == "sdata":
+                    v = r.choice([-1, -128, 127, 0, r.randint(-70000, 70000)])
+                else:
+                    v = r.choice(_BOUNDARY[form])
+            elif vals is None:
+                form = r.choice(["data1", "data1", "udata", "data2"])
+                v = r.choice([0, 1, 7, 127, 128, 255]) if form != "data2" else r.choice([0, 256, 65535, 9])
+            else:
+                form = "data1" if self._chance(0.8) else r.choice(["data2", "udata"])
+                v = r.choice(vals) if self._chance(0.93) else 0x7e
+            d.add(name, form, v)
+        if self._chance(self.opts["extras"] * 0.1):
+            # a vendor attribute in the user range: read as unsigned
+            d.add(0x2005 if self._chance(0.5) else 0x200b, r.choice(["data1", "data2", "data4", "udata", "sdata"]),
+                  r.choice([0, 1, 0x7f, 0x80, 0xff]) if True else 0)
+        if self._chance(self.opts["refused"]):
+            d.add(r.choice(["string_length", "discr_value", "discr_list"]) if tn != "member" else "discr_value",
+                  r.choice(["data1", "data2", "data4"]), r.choice([0, 1, 0x80, 0xff]))
+
     def _populate(self, d, shape):
         """Children of d (recursively), within the unit's budget and depth limit."""
         r = self.rng
@@ -1015,6 +1066,7 @@ class ForestGen:
                 ctn = self._weighted(choices)
             c = self._new(ctn, d)
             self._fill(c, ctn)
+            self._add_extras(c, ctn)
             self._populate(c, shape)
 
     def _build_unit(self, u):
